@@ -373,7 +373,14 @@ class Watcher(object):
                                             reload=reload_module)
 
         if ignore_failure:
-            self.ignore_hook_failure.append(name)
+            if name not in self.ignore_hook_failure:
+                self.ignore_hook_failure.append(name)
+        elif name in self.ignore_hook_failure and name not in (
+                'before_stop', 'after_stop', 'before_signal', 'after_signal',
+                'extended_stats'):
+            # the hook it replaces had the flag, this one has not (the
+            # failures of those five are ignored whatever the flag says)
+            self.ignore_hook_failure.remove(name)
 
     def _resolve_hooks(self, hooks):
         """Check the supplied hooks argument to make sure we can find
